@@ -61,6 +61,15 @@ func runC13(c *Ctx) error {
 					}
 				}
 			}
+			// a message that never ends: every fragment within the limit, the sum far above it, no FIN
+			for vi, stream := range unfinishedOversize(server, limit) {
+				for _, pmd := range []bool{false, true} {
+					spec := connSpec{Server: server, PMD: pmd, RLimit: limit}
+					if err := c13One(c, spec, stream, fmt.Sprintf("server=%v limit=%d unfinished variant=%d pmd=%v wire=%d", server, limit, vi, pmd, len(stream)), limit); err != nil {
+						return err
+					}
+				}
+			}
 			// declared-only lengths: the header alone, then the stream ends
 			for _, decl := range []uint64{1 << 31, 1<<63 - 1, 1 << 63, 1<<64 - 1, uint64(limit) + 1} {
 				var hdr [10]byte
@@ -79,6 +88,36 @@ func runC13(c *Ctx) error {
 		}
 	}
 	return nil
+}
+
+// unfinishedOversize: streams of one data frame without FIN followed by continuation frames without FIN; each frame is
+// within the limit, the sum is 40 times the limit (5 times for limits above 4096).
+func unfinishedOversize(server bool, limit int) [][]byte {
+	var out [][]byte
+	for _, fsz := range []int{limit, (limit + 1) / 2, 1} {
+		total := 40 * limit
+		if limit > 4096 {
+			total = 5 * limit // the model run is quadratic in the number of fragments: keep the long variants small
+		}
+		if fsz == 1 {
+			if limit > 1000 {
+				continue
+			}
+			total = limit + 40
+		}
+		var stream []byte
+		sent := 0
+		for i := 0; sent < total; i++ {
+			op := 0
+			if i == 0 {
+				op = 2
+			}
+			stream = append(stream, encodeFrame(frameSpec{Fin: false, Opcode: op, Masked: server, Key: [4]byte{5, 5, 5, byte(i)}, Payload: make([]byte, fsz), DeclLen: -1})...)
+			sent += fsz
+		}
+		out = append(out, stream)
+	}
+	return out
 }
 
 func splitEven(b []byte, k int) [][]byte {
